@@ -23,17 +23,18 @@ import (
 func init() { registry["C20"] = runC20 }
 
 type c20Req struct {
-	Token    string        `json:"token"`
-	Client   int           `json:"client"`
-	Gap      time.Duration `json:"gap_ns"`
-	Script   string        `json:"script"` // instant sleep hang near-timeout panic
-	Service  time.Duration `json:"service_ns"`
-	Abort    string        `json:"abort,omitempty"` // "" before-send mid-request
-	SentAt   time.Duration `json:"-"`
-	Resp     string        `json:"-"`
-	Done     bool          `json:"-"`
-	Refused  bool          `json:"-"`
-	ConnID   int           `json:"-"`
+	Token   string        `json:"token"`
+	Client  int           `json:"client"`
+	Gap     time.Duration `json:"gap_ns"`
+	Script  string        `json:"script"` // instant sleep hang near-timeout panic
+	Service time.Duration `json:"service_ns"`
+	Abort   string        `json:"abort,omitempty"`          // "" before-send mid-request stall stall-body
+	Upload  time.Duration `json:"slow_upload_ns,omitempty"` // body delivered this long after the headers
+	SentAt  time.Duration `json:"-"`
+	Resp    string        `json:"-"`
+	Done    bool          `json:"-"`
+	Refused bool          `json:"-"`
+	ConnID  int           `json:"-"`
 }
 
 type c20Inv struct {
@@ -45,15 +46,15 @@ type c20Inv struct {
 }
 
 type c20Scenario struct {
-	InitProcs int        `json:"init_procs"`
-	MaxProcs  int        `json:"max_procs"`
-	Timeout   int        `json:"timeout_s"`
-	Requests  []*c20Req  `json:"requests"`
-	Kills     []string   `json:"kills"`
-	SlowStart bool       `json:"slow_start"`
-	KeepBias  int        `json:"keep_bias"`
-	Summary   string     `json:"summary"`
-	Events    []string   `json:"kernel_events,omitempty"`
+	InitProcs int       `json:"init_procs"`
+	MaxProcs  int       `json:"max_procs"`
+	Timeout   int       `json:"timeout_s"`
+	Requests  []*c20Req `json:"requests"`
+	Kills     []string  `json:"kills"`
+	SlowStart bool      `json:"slow_start"`
+	KeepBias  int       `json:"keep_bias"`
+	Summary   string    `json:"summary"`
+	Events    []string  `json:"kernel_events,omitempty"`
 }
 
 type c20Handler struct {
@@ -153,6 +154,8 @@ func runC20(t *zsim.Tape, cfg *hlib.Config) *hlib.Outcome {
 	enPanic := t.Draw(5) == 4
 	enAbort := t.Draw(3) == 2
 	enStall := t.Draw(4) == 3
+	// uploads: complete headers announcing a body that arrives late (within the timeout) or never
+	enUpload := t.Draw(4) == 3
 	// a client that stalls for ever pins its worker (the worker has no read deadline); the
 	// remaining capacity argument (max-procs minus stallers >= 1) only holds while no worker
 	// dies, so this fault is drawn only in runs without any fault that ends a worker
@@ -215,6 +218,17 @@ func runC20(t *zsim.Tape, cfg *hlib.Config) *hlib.Outcome {
 				r.Abort = "stall"
 				stallers++
 			}
+			if enUpload && r.Abort == "" && t.Draw(4) == 3 {
+				if t.Draw(2) == 1 && !enStallClient {
+					// (not together with clients that pin workers for ever: this fault ends a worker,
+					// and the master only refills up to init-procs)
+					// the body never arrives and the connection stays open: the request outlives
+					// --timeout, its worker must be terminated and replaced
+					r.Abort = "stall-body"
+				} else if r.Script == "instant" {
+					r.Upload = time.Duration(1+t.Draw(6)) * timeout / 10
+				}
+			}
 			reqs = append(reqs, r)
 			h.scripts[r.Token] = r
 		}
@@ -262,8 +276,21 @@ func runC20(t *zsim.Tape, cfg *hlib.Config) *hlib.Outcome {
 					conn.Write([]byte(msg[:len(msg)/2]))
 					r.Done = true // this client never expects an answer; the connection stays open
 					continue
+				case "stall-body":
+					w.Fault("client-stalls-mid-body")
+					conn.Write([]byte(fmt.Sprintf("POST /run HTTP/1.1\r\nHost: sim\r\nContent-Length: %d\r\n\r\n%s", len(r.Token)+64, r.Token)))
+					r.Done = true // no answer is expected; the connection stays open
+					continue
 				}
-				conn.Write([]byte(msg))
+				if r.Upload > 0 {
+					w.Fault("client-slow-upload")
+					cut := len(msg) - len(r.Token)
+					conn.Write([]byte(msg[:cut]))
+					zsim.Sleep(r.Upload)
+					conn.Write([]byte(msg[cut:]))
+				} else {
+					conn.Write([]byte(msg))
+				}
 				var resp []byte
 				buf := make([]byte, 512)
 				for {
@@ -511,6 +538,25 @@ func runC20(t *zsim.Tape, cfg *hlib.Config) *hlib.Outcome {
 		}
 		if wp.Exited && !wp.Killed && wp.ExitAt > v.Start+timeout+5*time.Second {
 			return fail("I4:hung-worker-terminated-late", fmt.Sprintf("pid %d exceeded the timeout at %s but exited only at %s", v.Pid, v.Start+timeout, wp.ExitAt))
+		}
+	}
+	// I4 (uploads): complete headers, a body that never arrives, the connection left open — the
+	// request outlives the timeout, so the worker that accepted it must be gone shortly after
+	for _, r := range reqs {
+		if r.Abort != "stall-body" {
+			continue
+		}
+		for _, e := range k.Events {
+			if e.Kind != "accept" || e.Info != fmt.Sprintf("conn %d", r.ConnID) {
+				continue
+			}
+			wp := k.Proc(e.Pid)
+			if wp != nil && !wp.Exited && w.Now() > e.At+timeout+5*time.Second {
+				return fail("I4:stalled-upload-worker-not-terminated", fmt.Sprintf("pid %d accepted request %s (headers complete, body never delivered) at %s, timeout %s, and is still alive at %s", e.Pid, r.Token, e.At, timeout, w.Now()))
+			}
+			if wp != nil && wp.Exited && !wp.Killed && wp.ExitAt > e.At+timeout+5*time.Second {
+				return fail("I4:stalled-upload-worker-terminated-late", fmt.Sprintf("pid %d accepted request %s at %s (timeout %s) but exited only at %s", e.Pid, r.Token, e.At, timeout, wp.ExitAt))
+			}
 		}
 	}
 	// I2: back to at least init-procs once quiet
